@@ -28,6 +28,8 @@ THEOREMS = {
     "SpecKitV.Props.C01": [
         "stats_win_only_csd_eq_ref", "stats_win_only_auto_eq_ref", "stats_detrend0_csd_eq_ref", "stats_detrend0_auto_eq_ref",
         "stats_poly_csd_eq_ref", "stats_poly_auto_eq_ref"],
+    "SpecKitV.Props.C05": ["lpsdCore_eq_ref_cross", "lpsdCore_eq_ref_auto", "lpsdCore_bin_local", "lpsdCore_band", "winSums_spec", "lpsdCore_single",
+                           "lpsdCore_order1_add_line_auto", "lpsdCore_order1_add_line_cross"],
 }
 CONTRACTS = [
     "np.kaiser(L+1, beta)[:-1] is the DFT-even Kaiser window n -> I0(beta*sqrt(1-((n-L/2)/(L/2))^2))/I0(beta): NumPy's I0 is compared each run "
